@@ -615,6 +615,10 @@ class Values(Term):
         super().__init__(None)
         self.field = Field(field) if not isinstance(field, Field) else field
 
+    @builder
+    def replace_table(self, current_table: Optional["Table"], new_table: Optional["Table"]) -> "Values":
+        self.field = self.field.replace_table(current_table, new_table)
+
     def get_sql(self, quote_char: Optional[str] = None, **kwargs: Any) -> str:
         return "VALUES({value})".format(value=self.field.get_sql(quote_char=quote_char, **kwargs))
 
@@ -1097,6 +1101,8 @@ class BitwiseAndCriterion(Criterion):
             A copy of the criterion with the tables replaced.
         """
         self.term = self.term.replace_table(current_table, new_table)
+        if isinstance(self.value, Term):
+            self.value = self.value.replace_table(current_table, new_table)
 
     def get_sql(self, **kwargs: Any) -> str:
         sql = "({term} & {value})".format(
